@@ -784,6 +784,9 @@ class TOTP:
         elif key:
             # use existing key, encoded using specified <format>
             self.key = _decode_bytes(key, format)
+            if not self.key:
+                # text made of nothing but padding / separators ("===", "-"): no key at all
+                raise ValueError("no key specified: key text decodes to an empty key")
 
         # enforce min key size
         if len(self.key) < self._min_key_size:
